@@ -222,13 +222,30 @@ def check_multi(case: typing.Any, ctx: Ctx) -> Info:
             roots = list(reversed(roots))
         if case["reverse_targets"]:
             targets = list(reversed(targets))
-        where = "multi %s: targets=%r roots=%r" % (label, targets, roots)
+        # a target spelled relative to the roots that exists under *both* same-named roots: the documented rule is that the order of the
+        # roots decides (the first one that holds the file), whatever other targets come before it in the same call
+        shadowed: typing.Dict[int, typing.Tuple[str, str]] = {}
+        sh = case.get("shadow")
+        if sh is not None and case["two_trees"] and style >= 2:
+            i = sh % len(files)
+            if style == 2 or i % 2 == 1:
+                f_, tree_, rel_, abs_ = files[i]
+                other = [t for t in trees if t != tree_][0]
+                twin = os.path.join(d, other, rel_)
+                if not os.path.exists(twin):
+                    os.makedirs(os.path.dirname(twin), exist_ok=True)
+                    with open(twin, "w") as fh:
+                        fh.write("uint8 shadow\n@sealed\n")
+                    first_root = str(roots[0])
+                    shadowed[i] = (os.path.join(os.path.dirname(first_root), rel_), first_root)
+        where = "multi %s: targets=%r roots=%r%s" % (label, targets, roots, " shadowed=%r" % shadowed if shadowed else "")
         with nu.cwd(os.path.join(d, "elsewhere")):
             ck = case.get("container", 0)
             (direct, trans), _ = guarded(pydsdl.read_files, nu.as_container(targets, ck // 6), nu.as_container(roots, ck), None, None, True, what="read_files:multi:" + label)
         want = sorted(
-            (".".join([root] + f["ns"] + [f["short"]]), tuple(f["version"]), f["port"], os.path.realpath(a), os.path.realpath(os.path.join(d, t, root)))
-            for f, t, _, a in files
+            (".".join([root] + f["ns"] + [f["short"]]), tuple(f["version"]), f["port"],
+             os.path.realpath(shadowed[i][0] if i in shadowed else a), os.path.realpath(shadowed[i][1] if i in shadowed else os.path.join(d, t, root)))
+            for i, (f, t, _, a) in enumerate(files)
         )
         got = sorted(
             (t.full_name, (t.version.major, t.version.minor), t.fixed_port_id, os.path.realpath(str(t.source_file_path)), os.path.realpath(str(t.source_file_path_to_root)))
@@ -240,7 +257,7 @@ def check_multi(case: typing.Any, ctx: Ctx) -> Info:
         ctx.cleanup(d)
     same_dir = len({os.path.dirname(r) for _, _, r, _ in files}) < len(files)
     nontrivial = len(files) >= 2 and (len(used_trees) == 2 or style >= 2)
-    classes = ["multi:" + label, "files:%d" % len(files), "trees:%d" % len(used_trees)] + (["same-spelled-directory"] if same_dir else [])
+    classes = ["multi:" + label, "files:%d" % len(files), "trees:%d" % len(used_trees)] + (["same-spelled-directory"] if same_dir else []) + (["shadowed-target"] if shadowed else [])
     return Info(nontrivial, classes, sample=where)
 
 
@@ -388,6 +405,7 @@ def parts(ctx: Ctx) -> typing.List[Part]:
             "container": st.integers(0, 35),
             "reverse_roots": st.booleans(),
             "reverse_targets": st.booleans(),
+            "shadow": st.one_of(st.none(), st.integers(0, 3), st.integers(0, 3)),
         }
     )
     reroot = st.fixed_dictionaries(
